@@ -139,11 +139,8 @@ fn ser_garg(arg: &syn::GenericArgument) -> R {
 }
 
 fn ser_angle(args: &syn::AngleBracketedGenericArguments) -> R {
-    if args.colon2_token.is_some() {
-        return Err("turbofish in path".into());
-    }
     let kids = args.args.iter().map(ser_garg).collect::<Result<Vec<_>, _>>()?;
-    Ok(node("AAngle", "", kids))
+    Ok(node("AAngle", if args.colon2_token.is_some() { "::" } else { "" }, kids))
 }
 
 fn ser_path_args(args: &syn::PathArguments) -> R {
